@@ -506,6 +506,10 @@ fn write_evidence(o: &Opts, b: &Batch, violations: i128, known_hits: &[String], 
         cov.push(("states", i(st.abs_states.len() as u64)));
         cov.push(("transitions", i(st.transitions.len() as u64)));
         cov.push(("state_measure", s("abstract state = (quire type, poisoned, sign, index of leading bit, limb of lowest set bit); transition = (state, event kind, state')")));
+        cov.push(("operand_structure_classes", obj(vec![
+            ("reached", i(st.prod_classes.len() as u64)),
+            ("measure", s("distinct (quire type, += or -=, single-or-product, sign / regime polarity and run length / exponent bits of both factors) of accumulated terms; the decode and placement code branches on exactly these fields. Space: Q8E0 2*2*(2*2*14*14) = 3136 product classes, Q16E1 2*2*4*(30*30)*4 = 57600, Q32E2 2*2*4*(62*62)*16 = 984064 (upper bounds; products whose partner is the implicit 1 of a single posit occupy one row)")),
+        ])));
         cov.push(("spellings", json::map(&st.named("spelling."))));
         cov.push(("generator", json::map(&st.named("gen."))));
         cov.push(("runs_ended_by_other_propertys_clause", json::map(&st.named("runs.ended_by_"))));
